@@ -90,6 +90,15 @@ def obligations(W, n, args):
         out.append(("value <= u", atom_le(v, ("field", s, "u"))))
         out.append(("value >= last_value", atom_le(("field", s, "last_value"), v)))
         return cn, out
+    if cn in ("ptr::add", "ptr::const_ptr::add", "ptr::mut_ptr::add", "pointer::add") and len(args) == 2:
+        # the one-past-the-end pointer of a vector / slice: `v.as_ptr().add(v.len())` (what as_ptr_range() returns)
+        p_, k_ = args[0], args[1]
+        def base_of(t):
+            return t[2][0] if t[0] == "call" and t[1].endswith(("as_ptr", "as_mut_ptr")) and len(t[2]) == 1 else None
+        b_ = base_of(p_)
+        if b_ is not None and k_ == ("call", "len", (b_,)):
+            out.append(("pointer to the end of the same vector", ("true",)))
+            return cn, out
     if cn in ("slice::align_to", "slice::align_to_mut"):
         # unsafe only because the middle part reinterprets the elements: between plain integer types every bit
         # pattern is valid (how much lands in the prefix/suffix is R12.7's business)
